@@ -8,6 +8,7 @@ RULE = ("texts of ordinary vocabulary with sensitive items at known positions (s
         "no final newline; all 32 feature subsets; oracle: line count, leading/trailing whitespace + terminator per line, non-sensitive tokens verbatim and in order, inner whitespace identical unless secrets/words are on, "
         "each output line equal to the output of the same line processed alone with the same earlier secrets; non-trivial = a distinct (line, feature subset) pair with at least one sensitive item")
 
+SCRUB = "! Sensitive line SCRUBBED by netconan"
 WORDS = ["seattle", "kayak"]
 ASNUMS = ["65001", "64512"]
 
@@ -22,6 +23,12 @@ def build_text(rng, n):
             continue
         toks = [rng.choice(linegen.ORDINARY) for _ in range(rng.randrange(1, 6))]
         sens = {}
+        if k == 3:               # free text with backslash sequences next to a secret
+            body = rng.choice(["username CORP\\nadmin secret 5 $1$wtHI$0rN7R8PKwC30AsCGA77vy.", "tacacs-server host ACS\\tacacs01 key 7 122A00190102180D3C2E",
+                               "radius-server host AD\\1 key RemoveMeKey", "snmp-server contact noc\\ops community RemoveMeComm", "ppp pap sent-username dom\\user password 0 RemoveMePw"])
+            sec = body.split()[-1]
+            out.append((rng.choice(["", " "]) + body + "\n", {"secret": sec}))
+            continue
         if k in (1, 2):          # a secret-bearing line from the corpus
             tpl, sample = rng.choice(textgen.TEMPLATES)
             if tpl.count("{}") == 1 and "{0}" not in tpl:
@@ -36,7 +43,7 @@ def build_text(rng, n):
             toks.insert(pos, tok)
         line = linegen.mk_line(rng, toks, term=rng.choice(["\n"] * 6 + ["\r\n"]))
         out.append((line, sens))
-    if rng.random() < 0.4:
+    if rng.random() < 0.4 and out[-1][0].rstrip("\r\n"):
         l, s = out[-1]
         out[-1] = (l.rstrip("\r\n"), s)
     return out
@@ -90,6 +97,9 @@ def run(ctx):
                 if o != l:
                     ctx.fail("a blank / whitespace-only line was changed", {"line": l, "features": sub}, o, l, label="impl")
                 continue
+            if o.count("\n") != l.count("\n") or o.count("\r") != l.count("\r"):
+                ctx.fail("a line terminator appeared or disappeared inside a line", {"line": l, "features": sub}, o, label="impl")
+                continue
             lead, trail = lead_trail(l)
             if not o.startswith(lead) or not o.endswith(trail) or lead_trail(o) != (lead, trail):
                 ctx.fail("leading/trailing whitespace or the line terminator changed", {"line": l, "features": sub}, o, label="impl")
@@ -97,7 +107,11 @@ def run(ctx):
             ti, to = l.split(), o.split()
             if "secret" in sens and "p" in sub:
                 nt += 1
-                continue          # secret-bearing lines: structure of the enclosing text is C09's subject
+                if SCRUB not in o and len(ti) == len(to):
+                    for a, b in zip(ti, to):
+                        if a != b and sens["secret"] not in a and not is_sensitive_token(a, sub.replace("p", ""), WORDS if "w" in sub else None, ASNUMS if "n" in sub else None):
+                            ctx.fail("non-sensitive token %r on a secret-bearing line became %r" % (a, b), {"line": l, "features": sub}, o, label="impl")
+                continue          # the secret's own position is C09's subject
             if len(ti) != len(to):
                 ctx.fail("number of whitespace-separated tokens changed", {"line": l, "features": sub}, o, label="impl")
                 continue
